@@ -13,6 +13,7 @@ package main
 //     operation must produce when it succeeds; an error must leave resource and value untouched.
 
 import (
+	"sync"
 	"errors"
 	"fmt"
 	"sort"
@@ -587,6 +588,11 @@ type namedVal struct {
 }
 
 // c18Values: a value of the right type (generated), a sibling type, a wrong type, nil.
+var (
+	sameNameOnce sync.Once
+	sameName     = map[string][]protoreflect.MessageType{}
+)
+
 func c18Values(c *Ctx, g *ResGen, dest protoreflect.MessageDescriptor) []namedVal {
 	var out []namedVal
 	target := dest
@@ -614,12 +620,43 @@ func c18Values(c *Ctx, g *ResGen, dest protoreflect.MessageDescriptor) []namedVa
 		ev := vals.Get(1 + c.rng.Intn(vals.Len()-1))
 		code := strings.ReplaceAll(strings.ToLower(string(ev.Name())), "_", "-")
 		out = append(out, namedVal{fhir.Code(code), "sibling: Code " + code}, namedVal{fhir.String(code), "sibling: String " + code}, namedVal{fhir.Code("No_Such"), "sibling: invalid code"}, namedVal{fhir.Code("nosuch"), "sibling: unknown code"})
+		// near-misses of a valid code: other separators, stray blanks, other letter case
+		multi := code
+		for i := 1; i < vals.Len(); i++ {
+			if n := string(vals.Get(i).Name()); strings.Contains(n, "_") {
+				multi = strings.ReplaceAll(strings.ToLower(n), "_", "-")
+				break
+			}
+		}
+		for _, bad := range []string{strings.ReplaceAll(multi, "-", "_"), strings.ReplaceAll(multi, "-", " "), multi + " ", " " + multi, strings.ToUpper(multi), multi + "-", strings.ReplaceAll(multi, "-", "--")} {
+			if bad != multi {
+				out = append(out, namedVal{fhir.Code(bad), fmt.Sprintf("sibling: near-miss code %q", bad)})
+			}
+		}
 	case vf != nil && (vf.Kind() == protoreflect.Int32Kind || vf.Kind() == protoreflect.Uint32Kind):
 		out = append(out, namedVal{fhir.Integer(7), "sibling: Integer 7"}, namedVal{fhir.Integer(-3), "sibling: Integer -3"}, namedVal{&dtpb.PositiveInt{Value: 2}, "sibling: PositiveInt"})
 	case vf != nil && vf.Kind() == protoreflect.StringKind:
 		out = append(out, namedVal{fhir.String("s"), "sibling: String"}, namedVal{fhir.Code("c"), "sibling: Code"}, namedVal{fhir.Markdown("m"), "sibling: Markdown"})
 	}
 	out = append(out, namedVal{fhir.Integer(5), "wrong: Integer"}, namedVal{&dtpb.HumanName{Family: fhir.String("W")}, "wrong: HumanName"}, namedVal{fhir.Boolean(true), "wrong: Boolean"})
+	// a message of ANOTHER type with the same short name (Patient.Contact vs Organization.Contact, X.GenderCode ...)
+	sameNameOnce.Do(func() {
+		protoregistry.GlobalTypes.RangeMessages(func(mt protoreflect.MessageType) bool {
+			d := mt.Descriptor()
+			if strings.HasPrefix(string(d.FullName()), "google.fhir.r4.core.") {
+				sameName[string(d.Name())] = append(sameName[string(d.Name())], mt)
+			}
+			return true
+		})
+	})
+	for _, mt := range sameName[string(target.Name())] {
+		if mt.Descriptor() != target {
+			if b, ok := mt.New().Interface().(fhir.Base); ok {
+				out = append(out, namedVal{b, "wrong: same-name sibling " + string(mt.Descriptor().FullName())})
+				break
+			}
+		}
+	}
 	out = append(out, namedVal{nil, "nil"})
 	return out
 }
@@ -719,6 +756,32 @@ func runPatchOp(c *Ctx, orig fhir.Resource, op patchOp) {
 			same = e1 == nil && e2 == nil && string(a) == string(b)
 		}
 		c.Law(same, "C18/error-modified", "an operation that returns an error leaves the resource exactly as it was", in+" -> "+operr.Error(), "resource changed")
+		// measurement: operations the JSON tree can perform with a right-typed value but the implementation refuses
+		if op.steps != nil && (value == nil || strings.HasPrefix(op.vdesc, "right type")) {
+			exp := proto.Clone(orig).(fhir.Resource)
+			feasible := false
+			func() {
+				defer func() { _ = recover() }()
+				feasible, _ = expectedEdit(exp, op, value, orig)
+			}()
+			if feasible {
+				suffix := "plain"
+				for _, sf := range []string{".first()", ".last()", ".where(true)", ".where($this.exists())", ".trace('t')"} {
+					if strings.HasSuffix(op.path, sf) {
+						suffix = sf
+					}
+				}
+				if op.extURL != "" {
+					suffix = "extension(url)"
+				}
+				c.Count("refused-feasible:" + op.kind + ":" + suffix + ":" + patchErrClass(operr, evalErr != nil))
+				// a single existing element selected through a filter is patchable like the element itself:
+				// delete / replace of it with a right-typed value is not refused
+				if (op.kind == "delete" || op.kind == "replace") && (suffix == ".where(true)" || suffix == ".where($this.exists())" || suffix == ".first()" || suffix == ".last()") {
+					c.Law(false, "C18/refused", "delete / replace of the single element selected by a where(), first() or last() filter performs the JSON-tree operation", in, "refused: "+operr.Error())
+				}
+			}
+		}
 		return
 	}
 	// success: compare with the independent edit
